@@ -10,4 +10,18 @@ def checked (bound v : Nat) : Res Nat := if v < bound then .ok v else .panic
 /-- `u8::to_ascii_lowercase` -/
 def asciiLower (c : Nat) : Nat := if 65 ≤ c ∧ c ≤ 90 then c + 32 else c
 
+/-- `Vec::resize(n, x)` -/
+def vecResize (v : Bytes) (n x : Nat) : Bytes :=
+  if n ≤ v.length then v.take n else v ++ List.replicate (n - v.length) (UInt8.ofNat x)
+
+/-- `v.copy_within(a..b, dest)` (memmove inside the vector; panics when a range is out of bounds) -/
+def copyWithin (v : Bytes) (a b dest : Nat) : Res Bytes :=
+  if a ≤ b ∧ b ≤ v.length ∧ dest + (b - a) ≤ v.length then
+    .ok (v.take dest ++ (v.drop a).take (b - a) ++ v.drop (dest + (b - a)))
+  else .panic
+
+/-- `v[a..b].copy_from_slice(src)` (panics when the range is out of bounds or the lengths differ) -/
+def copyFromSlice (v : Bytes) (a b : Nat) (src : Bytes) : Res Bytes :=
+  if a ≤ b ∧ b ≤ v.length ∧ src.length = b - a then .ok (v.take a ++ src ++ v.drop b) else .panic
+
 end Dns.Tr
